@@ -284,6 +284,7 @@ pub fn gen_config(rng: &mut Rng, o: &CfgOpts) -> Config {
         nest_seed: if rng.chance(1, 5) { 0 } else { 1 + rng.below(1 << 40) },
         real_progs,
         default_progs,
+        specials: vec![],
     }
 }
 
